@@ -331,14 +331,31 @@ def mk_three_pools(g):
 
 
 class PoolsRegroupThree(PoolsRegroup):
-    """the same reconstruction for three pools whose delegation ids interleave (A, B, A ...)"""
-    bounded = 'three pools on disjoint node pairs, delegation ids in all 8 patterns over two ids'
-    max_paths = 20000
+    """the same reconstruction for three pools whose delegation ids interleave (A, B, A ...); optionally the registry had been
+    indexed before and the first pool was then moved to the other delegation id (the index is rebuilt, not patched)"""
+    bounded = 'three pools on disjoint node pairs, delegation ids in all 8 patterns over two ids, optionally re-indexed after an edit'
+    max_paths = 40000
 
     def inputs(self, g):
-        return [mk_three_pools(g)], {}
+        P = mk_three_pools(g)
+        reindex = g.choice(2, 'indexed before, then the first pool changes its delegation id?') == 0
+        other = g.atom('delC')
+        return [P, reindex, other], {}
 
-    ensures = {'pools.regroup_reconstructs': lambda pre, post: PoolsRegroup._c(pre, post, False)}
+    def body(self, h, P, reindex, other):
+        if reindex:
+            h.call(Pools.build_index_by_delegation_id, P)
+            first = values(fld(P, 'pool_by_id'))[0]
+            h.call(Pool.set_delegation_id, first, delegation_id=other)
+        return PoolsRegroup.body(self, h, P)
+
+    @staticmethod
+    def _c3(pre, post):
+        # the expectation speaks about the registry as it is when the delegations are generated
+        import types
+        return PoolsRegroup._c(types.SimpleNamespace(args=[post.args[0]]), post, False)
+
+    ensures = {'pools.regroup_reconstructs': lambda pre, post: PoolsRegroupThree._c3(pre, post)}
 
 
 class PoolDefinedOnce(Contract):
